@@ -25,7 +25,7 @@ from ..kit import cz, cq, cql, cnat, clist, frac, REPO
 
 HDR = ("From Coq Require Import List Bool ZArith QArith.\n"
        "From NV.Lib Require Import Harness.\n"
-       "From NV.Generated Require Import MrfTables.\n"
+       "From NV.Generated Require Import MrfTables GmmFrags.\n"
        "From NV.C13 Require Import Model.\n")
 
 TOL = F(1, 10 ** 12)
@@ -420,16 +420,19 @@ def posteriors(ck):
         lwl = v.log_weighted_density(x)
         with np.errstate(all="ignore"):
             resp = v.responsibilities(x)
-            wl = np.exp(lwl.T - lwl.mean(1)).T
+            wl_mean = np.exp(lwl.T - lwl.mean(1)).T      # the pre-fix shift, only used to name the failure
         ck.count(("vmf", m.tobytes(), x.tobytes(), prec, nullc), bucket="vmf:prec>=2000" if prec >= 2000 else "vmf:moderate")
         rep = {"k": k, "precision": prec, "means": m.tolist(), "weights": w.tolist(), "null_class": nullc, "x": x.tolist()}
         for i in range(len(x)):
-            if finite(wl[i]):
-                terms.append("qlist_close %s (normalize %s) %s" % (cq(TOL), cql(fl(wl[i])), cql(fl(resp[i]))))
-                meta.append(("vmf-resp", dict(rep, i=i)))
+            row = fl(lwl[i])
+            mx = max(row)
+            tbl = [(a - mx, math.exp(float(a - mx))) for a in row]       # exp oracle at the exact max-shifted arguments
+            terms.append("qlist_close %s (vmf_resp (qlookup %s) %s) %s" % (cq(F(1, 10 ** 11)), ctbl(tbl), cql(row),
+                                                                        cql(fl(np.nan_to_num(resp[i], nan=-1.0)))))
+            meta.append(("vmf-resp", dict(rep, i=i)))
             ok = finite(resp[i]) and abs(resp[i].sum() - 1) < 1e-12 and resp[i].min() >= 0
             if not ok:
-                ck.fail("vmf-responsibilities/%s" % ("exp-overflow-mean-shift" if not finite(wl[i]) else "row-sum"),
+                ck.fail("vmf-responsibilities/%s" % ("exp-overflow-mean-shift" if not finite(wl_mean[i]) else "row-sum"),
                         "VonMisesMixture(precision=%g).responsibilities row = %s" % (prec, resp[i].tolist()), dict(rep, i=i))
 
     # ---- Segmentation.normalized_external_field, map_from_ppm
@@ -606,9 +609,11 @@ def gauss(ck):
         g0, pri = fit(x, like)
         ck.count(("mstep", ptype, x.tobytes(), like.tobytes()), bucket="mstep:%s:%s%s" % (ptype, style, ":outlier" if outl else ""))
         rep = {"prec_type": ptype, "k": k, "dim": dim, "x": x.tolist(), "like": like.tolist()}
-        if ptype == "diag" and style != "model" and n * k * dim <= (72 if ck.thorough() else 48):   # (float likelihoods make the unreduced rationals of the model explode)
+        # executed through mstep_diag_x (fractions reduced after every accumulation step); float-valued
+        # likelihoods with exponents spread over 2^-190..1 still give 1000-bit fractions: quick tier keeps the small ones
+        if ptype == "diag" and (style != "model" or ck.thorough() or n * k * dim <= 40):
             pm, ps, pw, dof0, small = pri
-            terms.append("let '(w, m, p) := mstep_diag %s %s %s %s %s %s %s %s %s %s in "
+            terms.append("let '(w, m, p) := mstep_diag_x %s %s %s %s %s %s %s %s %s %s in "
                          "qlist_close %s w %s && list_eqb (qlist_close %s) m %s && list_eqb (qlist_rel %s) p %s" % (
                              cq(1e-15), cq(small), cq(dof0), cql(fl(pw)), cqmat(pm), cqmat(ps), cnat(k), cnat(dim), cqmat(like), cqmat(x),
                              cq(F(1, 10 ** 10)), cql(fl(g0.weights)), cq(F(1, 10 ** 9)), cqmat(g0.means), cq(F(1, 10 ** 9)), cqmat(g0.precisions)))
@@ -665,10 +670,10 @@ def gauss(ck):
                 eta2 = int(round(-2 * b / math.log(n)))
                 ck.count(("bic", ptype, dim, k), bucket="bic:%s" % ptype)
                 if ptype == "full":
-                    terms.append("Z.eqb (bic_eta2_full_code %s %s) %s" % (cz(k), cz(dim), cz(eta2)))
+                    terms.append("Qeq_bool (src_bic_eta_full %s %s) %s" % (cq(k), cq(dim), cq(F(eta2, 2))))
                     free2 = 2 * (k - 1) + 2 * k * dim + k * dim * (dim + 1)
                 else:
-                    terms.append("Z.eqb (2 * bic_eta_diag_code %s %s) %s" % (cz(k), cz(dim), cz(eta2)))
+                    terms.append("Qeq_bool (src_bic_eta_diag %s %s) %s" % (cq(k), cq(dim), cq(F(eta2, 2))))
                     free2 = 2 * ((k - 1) + 2 * k * dim)
                 meta.append(("bic-count", {"prec_type": ptype, "k": k, "dim": dim, "eta_times_2": eta2}))
                 if eta2 != free2:
@@ -732,8 +737,7 @@ def run(ck):
     ck.trust.append("exp oracle values in the ve_step correspondence come from Python's math.exp on the exactly computed argument; "
                     "the C code calls libm exp on the floating-point argument (difference covered by the 1e-12 tolerance)")
     ck.coq_build()
-    # only the segmentation extension is needed (rebuilt from /repo's mrf.c); everything else C13 touches is pure Python
-    ck.overlay(modules=["nipy.algorithms.segmentation._segmentation"])
+    ck.overlay()
     import time
     for fn in (mrf, posteriors, gauss):
         t0 = time.time()
